@@ -103,6 +103,43 @@ func checkMTSeq(mt *memtable.MemTable, ops []mtOp, keys []string) string {
 			return fmt.Sprintf("iter-order\niteration not (key asc, seq desc): %v", ents)
 		}
 	}
+	// equal sequence numbers on one key (a batch that writes a key twice is stamped once): the version inserted
+	// later is the newer one - it comes first in the iteration and it is the one a lookup returns
+	for i := 1; i < len(ents); i++ {
+		if ents[i-1].Key == ents[i].Key && ents[i-1].Seq == ents[i].Seq {
+			pos := func(e mtEntry, from int) int {
+				for j := from; j < len(ops); j++ {
+					if o := ops[j]; o.Key == e.Key && o.Seq == e.Seq && o.Del == e.Del && (o.Del || o.Val == e.Val) {
+						return j
+					}
+				}
+				return -1
+			}
+			// entries that are indistinguishable cannot be out of order
+			if fmt.Sprint(ents[i-1]) != fmt.Sprint(ents[i]) {
+				a, b := pos(ents[i-1], 0), pos(ents[i], 0)
+				// the first yielded must have a later insertion than the second (use the last occurrence of the first)
+				last := a
+				for j := a; j >= 0; j = pos(ents[i-1], j+1) {
+					last = j
+				}
+				if last < b {
+					return fmt.Sprintf("iter-order-equal-seq\nversions of %s with equal sequence number %d are not yielded newest (inserted last) first: %v for inserts %v", ents[i].Key, ents[i].Seq, ents, ops)
+				}
+			}
+		}
+	}
+	for _, k := range keys {
+		for _, e := range ents {
+			if e.Key == k {
+				v, ok := mt.Get([]byte(k))
+				if !ok || (e.Del && v != nil) || (!e.Del && (v == nil || string(v) != e.Val)) {
+					return fmt.Sprintf("get-disagrees-with-iteration\nGet(%s) = %q (found=%v), but the newest version the table's own iteration yields for the key is %v (inserts %v)", k, v, ok, e, ops)
+				}
+				break
+			}
+		}
+	}
 	// multiset equality
 	want := map[string]int{}
 	for _, o := range ops {
@@ -412,7 +449,7 @@ func init() {
 	fw.Register(&fw.Check{
 		ID:    "C18",
 		Level: "model_checking",
-		Rule: "sequential: every insert/delete sequence up to the depth over 2 keys x sequence numbers {1,2,2,3} (non-monotone, repeated), and one level shallower over {1, 2, 2^63+5, 2^64-2000001} (versions more than 2^63 apart); a case is non-trivial when >=2 versions interact; " +
+		Rule: "sequential: every insert/delete sequence up to the depth over 2 keys x sequence numbers {1,2,2,3} (non-monotone, repeated; among versions of a key with equal sequence number the one inserted last is the newest: first in the iteration, and the one Get returns), and one level shallower over {1, 2, 2^63+5, 2^64-2000001} (versions more than 2^63 apart); a case is non-trivial when >=2 versions interact; " +
 			"concurrent: every interleaving (atomics, locks as scheduling points) of 1 writer with 1-2 readers, unbounded with happens-before caching or deviation-bounded; non-trivial = executions with a cross-thread conflict on a shared object",
 		Assumptions: []string{"sequentially consistent interleavings of visible operations (locks, atomics); data-race freedom is C07's subject", "values outside the alphabet are not covered"},
 		Units: func(tier string) []string {
